@@ -1,3 +1,5 @@
 module verif/sim
 
 go 1.22.0
+
+require github.com/anishathalye/porcupine v1.3.0
